@@ -120,20 +120,29 @@ def r3(cx, rec):
     chain = [P.expr_call(bb)[4].get('name') for bb in mirq.real_calls(P)]
     rec.site(P, None, 'adaptor chain %s' % chain)
     bad = [c for c in chain if c in ('rev', 'sort', 'sort_by', 'skip', 'take', 'filter', 'step_by', 'dedup')]
-    rec.need(not bad and 'map' in chain and 'iter' in chain, 'peers-order', P, None, 'peers() reorders or drops entries: %s' % bad)
-    for c in F.children(P.path):
-        cf = F.fns[c]
+    # loop form: `for p in self.peers.iter() { out.push((addr, id)) }` with one unconditional push per entry, nothing else growing
+    nxt = [bb for bb in mirq.real_calls(P) if P.expr_call(bb)[4].get('name') == 'next']
+    psh = [bb for bb in mirq.real_calls(P) if P.expr_call(bb)[4].get('name') == 'push']
+    grow = [c for c in chain if c in ('insert', 'extend', 'extend_from_slice', 'append', 'push_front', 'swap', 'remove', 'pop', 'truncate', 'retain', 'clear', 'reverse')]
+    loop_form = len(nxt) == 1 and len(psh) == 1 and not grow and 'map' not in chain and \
+        not any(nxt[0] in P.reach_from(s2, cut_blocks=psh) for s2 in P.succs(nxt[0])) and psh[0] not in (P.reach_from(psh[0], cut_blocks=nxt) - {psh[0]})
+    rec.need(not bad and ('map' in chain or loop_form) and 'iter' in chain, 'peers-order', P, None, 'peers() reorders or drops entries: %s' % (bad + grow))
+    pushed = show(P.expr_call(psh[0])[2][1]) if loop_form else None
+    for cf in [F.fns[c] for c in F.children(P.path)] + ([P] if loop_form else []):
         for bi, si, s in cf.assigns():
-            if s['lhs']['l'] == 0 and s['rv']['k'] == 'agg' and s['rv'].get('ak') == 'tuple':
+            if cf is P and s['rv']['k'] == 'agg' and s['rv'].get('ak') == 'tuple' and show(cf.expr_rvalue(s['rv'])) != pushed:
+                continue
+            if (s['lhs']['l'] == 0 or cf is P) and s['rv']['k'] == 'agg' and s['rv'].get('ak') == 'tuple':
                 x = cf.expr_rvalue(s['rv'])
                 a, b = x[4][0][1], x[4][1][1]
                 sa = show(a)
                 okk = '.ip' in sa and '":"' in sa and '.port' in sa and sa.index('.ip') < sa.index('":"') < sa.index('.port')
-                ent_a = set(re.findall(r'(arg\d|\w+)\.(?:ip|port)', sa))
+                ent_a = {show(y[1]) for y in walk(a) if y[0] == 'field' and y[2] in ('ip', 'port')}
                 pb = access_path(b) or ''
+                ent_b = show(b[1]) if b[0] == 'field' else None
                 rec.site(cf, bi, 'yields (%s, %s)' % (sa[-70:], pb))
                 rec.need(okk, 'peers-address-format', cf, bi, 'address is not ip + ":" + port: %s' % sa[-100:])
-                rec.need(pb.endswith('.peer_id') and len(ent_a) == 1 and pb.split('.')[0] in ent_a, 'peers-id-pairing', cf, bi, 'id %s is not taken from the same entry as the address' % pb)
+                rec.need(pb.endswith('.peer_id') and len(ent_a) == 1 and ent_b in ent_a, 'peers-id-pairing', cf, bi, 'id %s is not taken from the same entry as the address' % pb)
     # malformed entries are skipped, not unwrapped: no panic-capable construct in the list builder or its closures
     for cf in [L] + [F.fns[c2] for c2 in F.children(L.path)]:
         for kind, pb, ops in mirq.panic_sites(cf):
